@@ -428,6 +428,12 @@ def depends(rep, repo):
     node -> op translation rule of C01 (C01.wiring, includes constants and tie cells) is part of this check."""
     from checks import c01
     c01.wiring_rules(rep, repo)
+    # TechLib.__init__ post-processes every implementation circuit with eliminate_1to1_forks: its rules (C10.elim) and the removal
+    # primitive it uses (C09.remove) are part of this check
+    from checks import c09, c10
+    cmod = repo.mod('circuit')
+    c10.elim_rules(rep, cmod)
+    c09.removal(rep, cmod)
 
 
 def thorough(rep, repo):
